@@ -2,11 +2,13 @@
 //   typed : manager.create_object<ArenaExample>()                         (ReusableTraits<T : Message>)
 //   base  : manager.create_object<google::protobuf::Message>(creator)     (ReusableTraits<Message>, reflection path)
 // against an ordinary heap message driven by the same setters (monitors only, no model).
-// stdin: "<id> P <interval> <cycles> <seed> <vary>"   vary=1: heavy (nested sub-messages, strings, repeated) and light
+// stdin: "<id> Q <seed>"  vector-of-messages special-member sequences (see run_q), or
+//        "<id> P <interval> <cycles> <seed> <vary>"   vary=1: heavy (nested sub-messages, strings, repeated) and light
 //        (scalars only) workloads alternate, so fields used in one cycle are untouched in the next
 // stdout: "<id> <observations> | monitor_t=0/1 ... monitor_b=0/1 ..."   (_t typed, _b base-registered)
 #include "babylon/reusable/manager.h"
 #include "babylon/reusable/message.h"
+#include "babylon/reusable/vector.h"
 
 #include <arena_example.pb.h>
 
@@ -107,13 +109,88 @@ static Verdict drive(SwissManager& manager, ACC acc, GET get, size_t itv, int cy
   return v;
 }
 
+// ---- Q cases: SwissVector<ArenaExample> (message elements) against std::vector of keys, two objects, two resources,
+// every special member function / swap flavour, both objects used afterwards; seeded random sequence, monitors only
+static ArenaExample make_msg(int k) {
+  ArenaExample m;
+  if (k == 0) return m;
+  m.set_p((uint64_t)k);
+  if (k % 3 == 0) m.mutable_m()->set_s(std::string((size_t)k % 40, 'x'));
+  if (k % 2 == 0) m.add_rs("r" + std::to_string(k));
+  return m;
+}
+using MV = SwissVector<ArenaExample>;
+static bool same_mv(const MV& v, const std::vector<int>& r) {
+  if (v.size() != r.size()) return false;
+  for (size_t i = 0; i < r.size(); ++i) if (v[i].SerializeAsString() != make_msg(r[i]).SerializeAsString()) return false;
+  return true;
+}
+static bool inv_mv(const MV& v) {
+  return v.size() <= v.constructed_size() && v.constructed_size() <= v.capacity() && (v.capacity() == 0 || v.data() != nullptr);
+}
+static void run_q(const std::string& id, uint64_t seed) {
+  rng_state = seed;
+  SwissMemoryResource r1, r2;
+  SwissAllocator<> al {r1}, al2 {r2};
+  MV* a = new MV(al);
+  MV* b = new MV(al);
+  std::vector<int> ra, rb;
+  std::string trace;
+  bool std_eq = true, size_le = true;
+  int first_bad = -1;
+  int nops = 12 + (int)(rnd() % 20);
+  for (int i = 0; i < nops; ++i) {
+    bool ab = rnd() % 2;
+    MV*& d = ab ? a : b;  MV*& s = ab ? b : a;
+    std::vector<int>& rd = ab ? ra : rb;  std::vector<int>& rs = ab ? rb : ra;
+    const char* dn = ab ? "a" : "b";
+    int k = 1 + (int)(rnd() % 60);
+    ArenaExample x = make_msg(k);
+    size_t pos = rd.empty() ? 0 : rnd() % (rd.size() + 1);
+    size_t n = rnd() % 4;
+    bool same_alloc = d->get_allocator() == s->get_allocator();
+    unsigned op = (unsigned)(rnd() % 20);
+    char buf[64];
+    switch (op) {
+      case 0: case 1: case 2: d->push_back(x); rd.push_back(k); snprintf(buf, sizeof buf, "%s.pb.%d", dn, k); break;
+      case 3: if (!rd.empty()) { d->pop_back(); rd.pop_back(); } snprintf(buf, sizeof buf, "%s.pop", dn); break;
+      case 4: d->insert(d->begin() + pos, x); rd.insert(rd.begin() + pos, k); snprintf(buf, sizeof buf, "%s.ins.%zu.%d", dn, pos, k); break;
+      case 5: d->insert(d->begin() + pos, n, x); rd.insert(rd.begin() + pos, n, k); snprintf(buf, sizeof buf, "%s.insn.%zu.%zu.%d", dn, pos, n, k); break;
+      case 6: { size_t j = pos + (rd.size() > pos ? rnd() % (rd.size() - pos + 1) : 0);
+                d->erase(d->begin() + pos, d->begin() + j); rd.erase(rd.begin() + pos, rd.begin() + j);
+                snprintf(buf, sizeof buf, "%s.er.%zu.%zu", dn, pos, j); break; }
+      case 7: d->resize(n + pos); rd.resize(n + pos, 0); snprintf(buf, sizeof buf, "%s.rs.%zu", dn, n + pos); break;
+      case 8: d->clear(); rd.clear(); snprintf(buf, sizeof buf, "%s.clr", dn); break;
+      case 9: d->assign(n, x); rd.assign(n, k); snprintf(buf, sizeof buf, "%s.asn.%zu.%d", dn, n, k); break;
+      case 10: d->reserve(n * 5); snprintf(buf, sizeof buf, "%s.res.%zu", dn, n * 5); break;
+      case 11: if (same_alloc) { if (i & 1) d->swap(*s); else std::swap(*d, *s); rd.swap(rs); } snprintf(buf, sizeof buf, "swap"); break;
+      case 12: *d = *s; rd = rs; snprintf(buf, sizeof buf, "cp->%s", dn); break;
+      case 13: *d = std::move(*s); s->clear(); rd = std::move(rs); rs.clear(); snprintf(buf, sizeof buf, "mv->%s", dn); break;
+      case 14: { MV* f = new MV(*s); delete d; d = f; rd = rs; snprintf(buf, sizeof buf, "cc->%s", dn); break; }
+      case 15: { MV* f = new MV(*s, (rnd() % 2) ? al : al2); delete d; d = f; rd = rs; snprintf(buf, sizeof buf, "cx->%s", dn); break; }
+      case 16: case 17: { MV* f = new MV(std::move(*s)); delete d; d = f; rd = std::move(rs); rs.clear();
+                          snprintf(buf, sizeof buf, "mc->%s", dn); break; }
+      default: { SwissAllocator<> t = (rnd() % 2) ? al : al2; bool sm = t == s->get_allocator();
+                 MV* f = new MV(std::move(*s), t); if (!sm) s->clear(); delete d; d = f; rd = std::move(rs); rs.clear();
+                 snprintf(buf, sizeof buf, "mx->%s%s", dn, sm ? "s" : "d"); break; }
+    }
+    trace += " "; trace += buf;
+    if (!inv_mv(*a) || !inv_mv(*b)) { size_le = false; if (first_bad < 0) first_bad = i; break; }   // corrupt: stop, leak
+    if (!same_mv(*a, ra) || !same_mv(*b, rb)) { if (std_eq) first_bad = i; std_eq = false; }
+  }
+  if (size_le) { delete a; delete b; }
+  printf("%s%s | std_eq=%d size_le=%d first_bad=%d\n", id.c_str(), trace.c_str(), std_eq, size_le, first_bad);
+}
+
 int main() {
   std::string line;
   while (std::getline(std::cin, line)) {
     std::istringstream is(line);
     std::string id, mode;
     size_t itv; int cycles; uint64_t seed; int vary = 0;
-    if (!(is >> id >> mode >> itv >> cycles >> seed)) continue;
+    if (!(is >> id >> mode)) continue;
+    if (mode == "Q") { uint64_t sd = 0; is >> sd; run_q(id, sd); fflush(stdout); continue; }
+    if (!(is >> itv >> cycles >> seed)) continue;
     is >> vary;
     Verdict t, b;
     {
